@@ -1,99 +1,64 @@
 /-
-  Property C06, part 3: the keyword ids of the generated tables are faithful to
-  `a[1].lower().replace('-','')` (element.py) — two attributes have the same keyword id exactly
-  when their local names give the same keyword string.  So the API model, which compares keyword
-  ids, resolves a keyword like the Python code, which compares strings.
+  Property C06, part 3: the keyword column of the generated tables is faithful to
+  `a[1].lower().replace('-','')` (element.py).  `attrKw[a]` is the numeral of the keyword string
+  of attribute `a`, so two attributes have the same keyword in the model exactly when the Python
+  expression gives the same string for their local names, and the API model — which compares
+  these numerals — resolves a keyword like the Python code, which compares strings.
 -/
 import OdfModel.GrammarData
 namespace OdfModel.Props.C06
 open OdfModel OdfModel.GrammarApi OdfModel.GrammarData OdfModel.GrammarNamesCodec OdfModel.Generated
 
-/-- the keyword string of attribute id `a`, computed by the model of the Python expression -/
-def kwString (a : Nat) : Str := kwChars (localPart (bytes (attrName a)))
+/-- the keyword string of an attribute display name `prefix:local` (bytes), by the model of the
+    Python expression -/
+def kwStringOf (name : Nat) : Str := kwChars (localPart (bytes name))
 
-def kwRowOk (a : Nat) : Bool :=
-  (bytes (attrName a)).all (fun c => Nat.blt c 128) && bytes (kwName (kwOf T a)) == kwString a
+/-- the keyword string of attribute id `a` -/
+def kwString (a : Nat) : Str := kwStringOf (attrName a)
 
-def ascending : List Nat → Bool
-  | a :: b :: rest => Nat.blt a b && ascending (b :: rest)
-  | _ => true
+def kwRow (name kw : Nat) : Bool :=
+  (bytes name).all (fun c => Nat.blt c 128) && (bytes kw == kwStringOf name) && Nat.beq (ofBytes (bytes kw)) kw
+
+/-- walk the name column and the keyword column side by side -/
+def kwRows : List Nat → List Nat → Bool
+  | n :: ns, k :: ks => kwRow n k && kwRows ns ks
+  | [], [] => true
+  | _, _ => false
 
 set_option maxRecDepth 100000 in
-/-- per attribute: the name is ASCII and the keyword table entry is the keyword of its local name;
-    the keyword table is strictly ascending (hence without repetition) and survives the byte codec -/
-theorem kw_table_ok :
-    ((List.range GrammarTables.nAttrs).all kwRowOk) = true
-    ∧ ascending GrammarNames.kwName = true
-    ∧ (GrammarNames.kwName.all fun n => ofBytes (bytes n) == n) = true
-    ∧ GrammarNames.kwName.length = GrammarTables.nKws
-    ∧ GrammarTables.attrKw.length = GrammarTables.nAttrs
-    ∧ (GrammarTables.attrKw.all fun k => Nat.blt k GrammarTables.nKws) = true := by
-  decide +kernel
+/-- per attribute: the name is ASCII, the keyword entry spells the keyword of its local name, and
+    the entry survives the byte codec (so equal spellings are equal numerals) -/
+theorem kw_table_ok : kwRows GrammarNames.attrName GrammarTables.attrKw = true := by decide +kernel
 
-theorem ascending_lt (l : List Nat) (h : ascending l = true) (i j : Nat) (hij : i < j) (hj : j < l.length) :
-    l[i]'(Nat.lt_trans hij hj) < l[j] := by
-  induction l generalizing i j with
-  | nil => simp at hj
-  | cons a rest ih =>
-    cases rest with
-    | nil => simp at hj; omega
-    | cons b rest' =>
-      simp only [ascending, Bool.and_eq_true] at h
-      have hab : a < b := by simpa [Nat.blt] using h.1
-      cases j with
-      | zero => omega
-      | succ j' =>
-        cases i with
-        | zero =>
-          simp only [List.getElem_cons_zero, List.getElem_cons_succ]
-          cases j' with
-          | zero => simpa using hab
-          | succ j'' =>
-            have := ih h.2 0 (j''+1) (by omega) (by simpa using hj)
-            simp only [List.getElem_cons_zero] at this
-            exact Nat.lt_trans hab this
-        | succ i' =>
-          simp only [List.getElem_cons_succ]
-          exact ih h.2 i' j' (by omega) (by simpa using hj)
+theorem kwRows_get (ns ks : List Nat) (h : kwRows ns ks = true) (a : Nat) (ha : a < ns.length) :
+    kwRow (ns[a]?.getD 0) (ks[a]?.getD 0) = true := by
+  induction ns generalizing ks a with
+  | nil => simp at ha
+  | cons n ns ih =>
+    cases ks with
+    | nil => simp [kwRows] at h
+    | cons k ks =>
+      simp only [kwRows, Bool.and_eq_true] at h
+      cases a with
+      | zero => simpa using h.1
+      | succ a' =>
+        simp only [List.getElem?_cons_succ]
+        exact ih ks h.2 a' (by simpa using ha)
 
-/-- **C06 (keyword ids)**: attributes `a`, `b` of the tables get the same keyword id iff the Python
-    keyword expression gives the same string for their local names -/
-theorem kw_ids_faithful (a b : Nat) (ha : a < GrammarTables.nAttrs) (hb : b < GrammarTables.nAttrs) :
+/-- **C06 (keywords)**: attributes `a`, `b` of the tables have the same keyword in the model iff the
+    Python keyword expression gives the same string for their local names -/
+theorem kw_ids_faithful (a b : Nat) (ha : a < GrammarNames.attrName.length) (hb : b < GrammarNames.attrName.length) :
     kwOf T a = kwOf T b ↔ kwString a = kwString b := by
-  obtain ⟨hrows, hasc, hcodec, hlen, hlen2, hrange⟩ := kw_table_ok
-  rw [List.all_eq_true] at hrows hcodec hrange
-  have ra := hrows a (List.mem_range.mpr ha)
-  have rb := hrows b (List.mem_range.mpr hb)
-  simp only [kwRowOk, Bool.and_eq_true, beq_iff_eq] at ra rb
+  have ra := kwRows_get _ _ kw_table_ok a ha
+  have rb := kwRows_get _ _ kw_table_ok b hb
+  simp only [kwRow, Bool.and_eq_true, beq_iff_eq, Nat.beq_eq_true_eq] at ra rb
+  show GrammarTables.attrKw[a]?.getD 0 = GrammarTables.attrKw[b]?.getD 0 ↔
+    kwStringOf (GrammarNames.attrName[a]?.getD 0) = kwStringOf (GrammarNames.attrName[b]?.getD 0)
   constructor
-  · intro h; rw [← ra.2, ← rb.2, h]
+  · intro h; rw [← ra.1.2, ← rb.1.2, h]
   · intro h
-    -- same string ⇒ same table entry ⇒ same index
-    have hbytes : bytes (kwName (kwOf T a)) = bytes (kwName (kwOf T b)) := by rw [ra.2, rb.2, h]
-    have hka : kwOf T a < GrammarNames.kwName.length := by
-      have : kwOf T a ∈ GrammarTables.attrKw := by
-        simp only [kwOf]
-        have h2 : a < GrammarTables.attrKw.length := by rw [hlen2]; exact ha
-        simp [List.getElem?_eq_getElem h2]
-      have := hrange _ this
-      rw [hlen]; simpa [Nat.blt] using this
-    have hkb : kwOf T b < GrammarNames.kwName.length := by
-      have : kwOf T b ∈ GrammarTables.attrKw := by
-        simp only [kwOf]
-        have h2 : b < GrammarTables.attrKw.length := by rw [hlen2]; exact hb
-        simp [List.getElem?_eq_getElem h2]
-      have := hrange _ this
-      rw [hlen]; simpa [Nat.blt] using this
-    have hna : kwName (kwOf T a) = GrammarNames.kwName[kwOf T a] := by simp [kwName, List.getElem?_eq_getElem hka]
-    have hnb : kwName (kwOf T b) = GrammarNames.kwName[kwOf T b] := by simp [kwName, List.getElem?_eq_getElem hkb]
-    have ca := hcodec _ (List.getElem_mem hka)
-    have cb := hcodec _ (List.getElem_mem hkb)
-    simp only [beq_iff_eq] at ca cb
-    have hname : GrammarNames.kwName[kwOf T a] = GrammarNames.kwName[kwOf T b] := by
-      rw [← ca, ← cb, ← hna, ← hnb, hbytes]
-    rcases Nat.lt_trichotomy (kwOf T a) (kwOf T b) with hlt | heq | hgt
-    · have := ascending_lt _ hasc _ _ hlt hkb; omega
-    · exact heq
-    · have := ascending_lt _ hasc _ _ hgt hka; omega
+    have : bytes (GrammarTables.attrKw[a]?.getD 0) = bytes (GrammarTables.attrKw[b]?.getD 0) := by
+      rw [ra.1.2, rb.1.2, h]
+    rw [← ra.2, ← rb.2, this]
 
 end OdfModel.Props.C06
